@@ -226,11 +226,22 @@ type c16Probe struct {
 func (p c16Probe) run() string {
 	if p.json != nil {
 		text := []byte(p.json.Text())
-		c, err := psa.DecodeClaimsFromJSON(text)
-		if err != nil {
-			return "j=error"
+		one := func(t []byte) string {
+			c, err := psa.DecodeClaimsFromJSON(t)
+			if err != nil {
+				return "j=error"
+			}
+			return "j=" + kindOf(c)
 		}
-		return "j=" + kindOf(c)
+		res := one(text)
+		// the same document with its strings written with JSON escapes (\/ for /, \u0026 for &) says the same
+		esc := strings.NewReplacer("/", `\/`, "&", `\u0026`, "_", `\u005f`).Replace(string(text))
+		if esc != string(text) {
+			if r2 := one([]byte(esc)); r2 != res {
+				return res + " but-with-string-escapes:" + r2
+			}
+		}
+		return res
 	}
 	c, err := psa.DecodeClaimsFromCBOR(append([]byte{}, p.cbor...))
 	if err != nil {
@@ -246,7 +257,12 @@ func (p c16Probe) proto() string {
 	return "C~" + hx(p.cbor)
 }
 
-func c16Names(i int) string { return fmt.Sprintf("http://example.com/reg/%d", i) }
+func c16Names(i int) string {
+	if i == 3 {
+		return "HTTP://example.com/reg/3?a=1&b=2" // a spelling that URL printing would change, characters JSON escapes
+	}
+	return fmt.Sprintf("http://example.com/reg/%d", i)
+}
 
 func genProbe(rng *Rng, names []string) c16Probe {
 	val := func() (*Node, *JTree, string) {
